@@ -36,6 +36,27 @@ impl std::fmt::Display for WKey {
     }
 }
 
+thread_local! {
+    /// > 0: the number of `FuseVal` clones still allowed before one panics; <= 0: disarmed
+    pub static FUSE: std::cell::Cell<i64> = const { std::cell::Cell::new(0) };
+}
+/// an edge value whose `Clone` panics when the fuse of the current thread burns down (flavours `fdi`, `fun`)
+#[derive(Debug)]
+pub struct FuseVal(pub u32);
+impl Clone for FuseVal {
+    fn clone(&self) -> Self {
+        FUSE.with(|f| {
+            if f.get() > 0 {
+                f.set(f.get() - 1);
+                if f.get() == 0 {
+                    panic!("FuseVal: clone refused");
+                }
+            }
+        });
+        FuseVal(self.0)
+    }
+}
+
 fn b(x: bool) -> &'static str {
     if x { "1" } else { "0" }
 }
@@ -117,6 +138,17 @@ macro_rules! payloads {
         fn nu(v: &NT) -> i64 { *v }
         fn ee(v: u32) -> ET { v }
         fn eu(v: &ET) -> u32 { *v }
+    };
+    (fuse) => {
+        pub type KT = usize;
+        pub type NT = i64;
+        pub type ET = FuseVal;
+        fn kk(k: usize) -> KT { k }
+        fn ku(k: &KT) -> usize { *k }
+        fn nn(v: i64) -> NT { v }
+        fn nu(v: &NT) -> i64 { *v }
+        fn ee(v: u32) -> ET { FuseVal(v) }
+        fn eu(v: &ET) -> u32 { v.0 }
     };
     (zst) => {
         pub type KT = usize;
@@ -261,6 +293,41 @@ macro_rules! wk_mod {
                         "isolate" => Some(EdgeOp::Isolate(p(1))),
                         _ => None,
                     };
+                    // `#fuse=k` on a connect / try_connect: the k-th clone of an edge value made by the call panics and the caller
+                    // catches it. The call did not return, so it has not happened: the lists are what they were (no half edge).
+                    // Then the call is made again without the fuse, so that the history goes on as written.
+                    if let Some(k) = raw.split(' ').find_map(|x| x.strip_prefix("#fuse=")).and_then(|x| x.parse::<i64>().ok()) {
+                        if t[0] == "connect" || t[0] == "try_connect" {
+                            let b0 = lists(&nodes);
+                            FUSE.with(|f| f.set(k));
+                            let r0 = catch_unwind(AssertUnwindSafe(|| {
+                                if t[0] == "connect" {
+                                    node(p(1)).connect(&node(p(2)), ee(p(3) as u32));
+                                    "ok".to_string()
+                                } else {
+                                    match node(p(1)).try_connect(&node(p(2)), ee(p(3) as u32)) {
+                                        Ok(()) => "ok".to_string(),
+                                        Err(_) => "err exists".to_string(),
+                                    }
+                                }
+                            }));
+                            FUSE.with(|f| f.set(0));
+                            match r0 {
+                                Ok(o) => {
+                                    ctx.prog.push(raw.clone());
+                                    ctx.outs.push(o);
+                                    continue;
+                                }
+                                Err(_) => {
+                                    let a0 = lists(&nodes);
+                                    if a0 != b0 && !ctx.oracles.is_empty() {
+                                        let o = ctx.oracles[0].clone();
+                                        ctx.fail(case, li, &o, format!("`{raw}`: the clone of the edge value panicked inside the call and the caller caught it; the call left the lists changed: {} became {}", dump(&nodes), a0.iter().map(|n| format!("{}:{}/{}", n.key, fmt_list(&n.out), fmt_list(&n.inn))).collect::<Vec<_>>().join(" ")));
+                                    }
+                                }
+                            }
+                        }
+                    }
                     let before = if eop.is_some() && ctx.has("contract") { Some(lists(&nodes)) } else { None };
                     let mut oracle_in: Option<(crate::exec_ext::SearchSpec, crate::exec_ext::SearchOut)> = None;
                     let r: Result<String, ()> = catch_unwind(AssertUnwindSafe(|| match t[0] {
@@ -382,3 +449,6 @@ wk_mod!(zdi, digraph, di, zst);
 wk_mod!(zsdi, sync_digraph, di, zst);
 wk_mod!(zun, ungraph, un, zst);
 wk_mod!(zsun, sync_ungraph, un, zst);
+// the plain flavours only: a panic under a lock guard poisons the locks of the sync flavours by design
+wk_mod!(fdi, digraph, di, fuse);
+wk_mod!(fun, ungraph, un, fuse);
